@@ -36,7 +36,7 @@ func ruleC04_1(c *Ctx, r *Rep) {
 		}
 		via := false
 		for _, t := range q.Terms {
-			if c.Key(top(t.Call.Parent())) == fnPullNext {
+			if c.partOf(t.Call.Parent(), fnPullNext, 0) {
 				via = true
 			}
 		}
@@ -494,7 +494,18 @@ func ruleC05_3(c *Ctx, r *Rep) {
 	// conditions of the link: only the lookup's success, the key tests and OrderedDelivery
 	okConds := true
 	bad := ""
-	for _, cd := range nb.Conds {
+	var createStmt *Stmt
+	for _, st := range c.EntShape().Stmts {
+		if st.Table == "deliveries" && st.Kind == "create" && c.Owner(st) == fnDeliver && len(st.Mut("not_before_id")) > 0 {
+			createStmt = st
+			break
+		}
+	}
+	linkConds := nb.Conds
+	if createStmt != nil {
+		linkConds = createStmt.condsBeyondRoot(nb.Conds)
+	}
+	for _, cd := range linkConds {
 		src := sources(cd.V)
 		switch {
 		case dependsOnCall(cd.V, term):
